@@ -111,3 +111,36 @@ pub fn judge_compile_failures(
     }
     (0, faults)
 }
+
+/// Open known findings (known_findings.txt, never written at run time) are probed with their stored reproducers:
+/// `table` maps a finding key to (entraited program, plain twin, substring of the expected rustc error code or message).
+/// Still failing in the stored way => KNOWN-FINDING line; failing in another way => violation; compiling => nothing.
+/// An open finding whose key is not in the table makes the run inconclusive. Returns false after a violation.
+pub fn probe_open_findings(ctx: &mut crate::ev::Ctx, property: &str, table: &[(&str, String, String, &[&str])]) -> bool {
+    for f in crate::ev::open_findings(property) {
+        let Some((_, real, twin, expect)) = table.iter().find(|row| row.0 == f.key) else {
+            crate::ev::inconclusive(&format!("known_findings.txt lists an open {property} finding with an unknown key: {}", f.key));
+        };
+        let mut b = crate::e2::Batch::new(&format!("{}-known", property.to_lowercase()), crate::e2::Opts { feature_unimock: false, members: 2, check_only: true, ..Default::default() });
+        b.add("c00000", real.clone());
+        b.add("t00000", twin.clone());
+        let out = b.build_and_run();
+        b.cleanup();
+        ctx.count_eval();
+        if out.compile_failed.contains_key("t00000") {
+            crate::ev::inconclusive(&format!("{property} known-finding probe `{}`: the twin does not compile", f.key));
+        }
+        if let Some(d) = out.compile_failed.get("c00000") {
+            if d.iter().any(|x| expect.iter().any(|e| x.code.contains(e) || x.message.contains(e))) {
+                ctx.known(&format!("key={} {}", f.key, f.what));
+            } else {
+                ctx.violation(
+                    &format!("known finding `{}` now fails differently: {}", f.key, d.first().map(|x| format!("{} {}", x.code, x.message)).unwrap_or_default()),
+                    &serde_json::json!({"engine": "E2", "feature_unimock": false, "src": real, "twin": twin, "real": real, "summary": f.key, "expect": "compiles"}),
+                );
+                return false;
+            }
+        }
+    }
+    true
+}
